@@ -75,6 +75,12 @@ def basis_part(rep, rng, runq, todo, quick):
                 if np.all(np.asarray(dgrid.norm()) > 1e-8):
                     if np.max(np.abs(np.asarray(bd.normalize().to_grid().values) - np.asarray(dgrid.normalize().values))) > 1e-8 * sc:
                         bad.append("normalisation does not commute with evaluation")
+                    # (use_argvals_stand is documented as "not used" by the norm of basis-expansion data: not compared)
+                    for kwn in ({"method_integration": "simpson"},):
+                        nbv = np.asarray(BasisFunctionalData(basis=basis, coefficients=coef.copy()).normalize(**kwn).to_grid().values)
+                        ngv = np.asarray(dgrid.normalize(**kwn).values)
+                        if np.max(np.abs(nbv - ngv)) > 1e-8 * sc:
+                            bad.append(f"normalisation {kwn} does not commute with evaluation (max deviation {np.max(np.abs(nbv - ngv)):.3g})")
                 for kw in ({}, {"use_argvals_stand": True}, {"method_integration": "simpson"}):
                     rb_, wb = BasisFunctionalData(basis=basis, coefficients=coef.copy()).rescale(**kw)
                     rg_, wg = dgrid.rescale(**kw)
